@@ -464,6 +464,7 @@ def signature(prop, tr, matched):
 
 def check(prop, tier, seed, into=None):
     v = into or Verdict(prop, tier, seed)
+    label_counts = {}
     L = tm.load_lib()
     del L
     tot = {"states": 0, "transitions": 0, "edges": 0, "paths": 0, "drift": 0, "drift_benign": 0,
@@ -476,6 +477,8 @@ def check(prop, tier, seed, into=None):
         tot["states"] += res["distinct"]
         tot["transitions"] += res["generated"]
         edges = read_ndjson(res["files"]["edges.ndjson"])
+        for e_ in edges:
+            label_counts[e_["a"][0]] = label_counts.get(e_["a"][0], 0) + 1
         tot["edges"] += len(edges)
         # 2. the demanded design (UnstartedCloseLeaks = FALSE) satisfies every sentence of C09
         res2 = run_tlc("Tee", cfg_text(n, srclen, susp, uselock, exitsusp, False, edges=False, invs=DEMAND_INVS, sweeps=True, closable=closable), timeout=3000)
@@ -528,6 +531,10 @@ def check(prop, tier, seed, into=None):
         "retention census allows, per child, the item its generator frame fetched last (CPython frame lifetime)",
         "edge-cover conformance is sound only for the projected state (cs, recv, source position, busy set, close count, lock holder, and tee._buffers when present)",
     ]
+    vac = dict(label_counts)
+    missing = [a for a in ["anext", "grant", "tick", "close", "cancel", "closeall", "fail"] if not vac.get(a)]
+    if missing:
+        raise MachineryError(f"vacuity guard: actions never taken in the explored graphs: {missing}")
     return v.finish({
         "states": tot["states"], "transitions": tot["transitions"],
         "traces_validated_against_impl": tot["validated"] + tot["paths"],
@@ -535,7 +542,7 @@ def check(prop, tier, seed, into=None):
         "drift_benign": tot["drift_benign"], "random_schedule_traces": tot["random_traces"],
         "traces_validated_by_TLC_against_TeeObs": tot["validated"], "trace_validation": st,
         "demand_model_states": tot["demand_model_states"],
-        "configs": [list(c) for c in TIERS[tier]], "exhaustive": True,
+        "configs": [list(c) for c in TIERS[tier]], "exhaustive": True, "vacuity_guard_actions_taken": vac,
         "evaluations": tot["paths"] + tot["random_traces"], "distinct_nontrivial": tot["paths"],
         "rule": "one replay per transition of the Tee state graph (shortest path + edge + drain); every path is distinct by construction",
         "checker_cmd": "tlc -config <generated> spec/Tee.tla ; tlc -workers 1 spec/TeeObs.tla (TRACE_FILE=...)",
